@@ -388,3 +388,12 @@ def run(ctx):
     _run_before_r03_10(ctx)
     from . import replay_rules
     ctx.guard(replay_rules.r03_10)
+
+
+_run_before_r03_11 = run
+
+
+def run(ctx):
+    _run_before_r03_11(ctx)
+    from . import replay_rules
+    ctx.guard(replay_rules.r03_11)
